@@ -54,6 +54,31 @@ def solve(constraints, timeout_ms=60_000):
     return 'unknown', None, time.time() - t0, 'z3+cvc5'
 
 
+def _conjuncts(g):
+    if z3.is_and(g):
+        out = []
+        for c in g.children():
+            out.extend(_conjuncts(c))
+        return out
+    return [g]
+
+
+def solve_goal(hyp, goal, timeout_ms):
+    """prove hyp => goal. A conjunction is split into its conjuncts (one query each; all must be unsat):
+    many small parity queries are far more stable than one large one."""
+    parts = _conjuncts(z3.simplify(goal)) if z3.is_expr(goal) else [goal]
+    if len(parts) <= 1:
+        return solve(hyp + [z3.Not(goal)], timeout_ms) + (1,)
+    tot = 0.0
+    bes = set()
+    for g in parts:
+        r, m, dt, be = solve(hyp + [z3.Not(g)], timeout_ms)
+        tot += dt; bes.add(be)
+        if r != 'unsat':
+            return r, m, tot, be, len(parts)
+    return 'unsat', None, tot, '+'.join(sorted(bes)), len(parts)
+
+
 def model_value(m, x):
     """concretise a symbolic value under model m (model completion on)"""
     if isinstance(x, SymArray):
@@ -158,15 +183,30 @@ def concrete_truth(t):
     return bool(t)
 
 
+def from_repo(exc):
+    """was the exception raised while code of /repo (or a loop body cut from it) was on the stack?
+    (otherwise it comes from the harness/contract itself and is an engine fault, never a violation)"""
+    tb = exc.__traceback__
+    while tb is not None:
+        fn = tb.tb_frame.f_code.co_filename
+        if fn.startswith('/repo/') or fn.startswith('<loopcut'):
+            return True
+        tb = tb.tb_next
+    return False
+
+
 def native_check(contract, conc_inputs, shape=None):
     """run the REAL function natively (no shims, no stubs) on concrete inputs and evaluate the same
     postcondition code. returns (ok, failed clause names, info)"""
     try:
         res = contract.call_native(conc_inputs) if hasattr(contract, 'call_native') else contract.call(conc_inputs)
     except Exception as ex:
+        if not from_repo(ex):
+            raise
         return False, ['no_exception'], f'{type(ex).__name__}: {ex}'
     failed = []
-    for cname, t in contract.post(conc_inputs, res):
+    for clause in contract.post(conc_inputs, res):
+        cname, t = clause[0], clause[1]
         if not concrete_truth(t):
             failed.append(cname)
     return (not failed), failed, repr(jsonable(res))[:400]
@@ -201,6 +241,11 @@ def verify_contract(contract, shape, tier, rng, part=(0, 1), crosscheck=4):
     vac_ok = 0
     for pi, p in enumerate(paths):
         hyp = list(p.pc) + list(p.assumptions)
+        if p.exc is not None and not from_repo(p.exc):
+            # raised by the harness / contract / engine, not by the code under proof: engine fault, never a violation
+            out.append(ob(f'{base}.harness[{sh}]#p{pi}', 'fault', functions=funcs, tier='P',
+                          detail='exception outside /repo code: ' + ''.join(traceback.format_exception(p.exc))[-1500:]))
+            continue
         if p.exc is not None:
             k += 1
             if (k - 1) % part[1] != part[0]:
@@ -222,17 +267,23 @@ def verify_contract(contract, shape, tier, rng, part=(0, 1), crosscheck=4):
         except sched.Unsupported as ex:
             out.append(ob(f'{base}.post[{sh}]#p{pi}', 'undecided', functions=funcs, tier='P', detail=f'engine: {ex}'))
             continue
-        for cname, goal in clauses:
+        for clause in clauses:
+            cname, goal = clause[0], clause[1]
+            extra = clause[2] if len(clause) > 2 else {}
             k += 1
             if (k - 1) % part[1] != part[0]:
                 continue
             oid = f'{base}.{cname}[{sh}]#p{pi}'
-            r, m, dt, be = solve(hyp + [z3.Not(goal)], timeout)
+            hyp_c = hyp + list(extra.get('hyps', []))
+            deps = [d if d.startswith(prop + '.') else f'{base}.{d}[{sh}]#p{pi}' for d in extra.get('depends', [])]
+            r, m, dt, be, nq = solve_goal(hyp_c, goal, timeout)
             if r == 'unsat':
-                rec = ob(oid, 'proved', functions=funcs, tier='P', time_s=dt, backend=be)
+                rec = ob(oid, 'proved', functions=funcs, tier='P', time_s=dt, backend=be, queries=nq)
+                if deps:
+                    rec['depends'] = deps
                 if not canary_done:
                     # vacuity canary: the hypotheses are satisfiable and the *negated* clause is refuted
-                    r2, _, dt2, _ = solve(hyp + [goal], timeout)
+                    r2, _, dt2, _ = solve(hyp_c + [goal], timeout)
                     rec['canary_negated_clause_refuted'] = (r2 == 'sat')
                     canary_done = True
                     if r2 != 'sat':
